@@ -5,6 +5,7 @@ import (
 	"context"
 	"errors"
 	"fmt"
+	goscanner "go/scanner"
 	"io"
 	"math/rand/v2"
 	"net/http"
@@ -13,6 +14,7 @@ import (
 	"os/exec"
 	"reflect"
 	"strings"
+	textscanner "text/scanner"
 	"time"
 
 	"github.com/bool64/cache"
@@ -24,6 +26,10 @@ func init() {
 }
 
 func genC14(r *rand.Rand, run int, tier string) *Scenario {
+	if run%1000 == 199 {
+		return &Scenario{Engine: "hash", Hash: &HashScenario{ZeroHash: true}}
+	}
+
 	if run%50 == 49 {
 		return genHashScenario(r)
 	}
@@ -476,7 +482,10 @@ type (
 
 // values of struct, pointer, slice, map and basic kinds (a type and a pointer to it are never both
 // registered: encoding/gob refuses that)
-var hashPool = []interface{}{hp1{}, hp2{}, hp3{}, hp4{}, hp5{}, hp6{}, &hp7{}, hp8{}, hp9{}, hpA(0)}
+//
+// The last two are distinct types of different packages that print the same (reflect.Type.String() is
+// qualified by the package name, not the import path): "scanner.Scanner".
+var hashPool = []interface{}{hp1{}, hp2{}, hp3{}, hp4{}, hp5{}, hp6{}, &hp7{}, hp8{}, hp9{}, hpA(0), goscanner.Scanner{}, textscanner.Scanner{}}
 
 func typesHashInFreshProcess(order string) (string, error) {
 	cmd := exec.Command(os.Args[0], "-test.run", "^TestHashHelper$")
@@ -501,6 +510,10 @@ func typesHashInFreshProcess(order string) (string, error) {
 type HashScenario struct {
 	Orders   []string `json:"orders"`   // permutations / multiplicities of the same member set
 	Superset string   `json:"superset"` // the same set plus one more type
+	// ZeroHash: instead of the above, a fresh process whose types hash is 0 on both sides (the fingerprint of
+	// "nothing registered") exports and imports caches of builtin-typed values: equal hashes, so everything
+	// must be imported.
+	ZeroHash bool `json:"zero_hash,omitempty"`
 }
 
 func genHashScenario(r *rand.Rand) *Scenario {
@@ -550,6 +563,38 @@ func groupRandomly(r *rand.Rand, order []byte) string {
 func runHash(sc *Scenario, out *RunOut) {
 	hs := sc.Hash
 	out.Verdict = "aux"
+
+	if hs.ZeroHash {
+		cmd := exec.Command(os.Args[0], "-test.run", "^TestZeroHashHelper$")
+		cmd.Env = append(os.Environ(), "VERIF_ZERO_HASH=1", "VERIF_PROP=")
+
+		b, err := cmd.CombinedOutput()
+		if err != nil {
+			out.Internal = fmt.Sprintf("zero-hash helper: %v: %s", err, b)
+
+			return
+		}
+
+		res := ""
+
+		for _, ln := range strings.Split(string(b), "\n") {
+			if strings.HasPrefix(ln, "ZEROHASH=") {
+				res = strings.TrimPrefix(ln, "ZEROHASH=")
+			}
+		}
+
+		switch {
+		case res == "":
+			out.Internal = "zero-hash helper printed no result: " + string(b)
+		case res != "ok":
+			out.violate("C14.H3", "equal-zero-hashes-refused", "exporter and importer both have types hash 0 (nothing registered) and the caches hold builtin values: %s", res)
+		}
+
+		out.probe("zero_types_hash_transfer")
+		out.Outcome = "hash-zero"
+
+		return
+	}
 
 	var first string
 
